@@ -57,6 +57,11 @@ def run(pid, tier, seed):
     res.lemmas = [{"id": "L1", "statement": "filter_ne on a duplicate-free list holding x at position k = remove_at k",
                    "status": driver.lean_status("L1_filter_ne.lean")}]
     collect(res)
+    if pid == "C02":
+        # the constructors delegate to the (verified) setters: effect-log contracts of Node.__init__ / AnyNode.__init__
+        from contracts import symlink
+        from . import seq_props
+        seq_props.collect_specs(res, symlink.build_ctors())
     res.obligations = driver.select(res.obligations, pid)
     if not res.obligations and not res.struct:
         res.faults.append("no obligations generated")
